@@ -156,11 +156,25 @@ CLAIMED = {
         "note": "bitcode's codec is trusted; printer/parser agreement on the re-parsed R1C1 text is C09's subject. " + TRUST,
         "technique": "impl/ADT closure query + CFG dominance (must-pass-through) + provenance of encode/decode operands",
     },
+    "C30": {
+        "level": "Static decision of coverage and same-named provenance in the style pools (interning reads every Style field and builds "
+                 "CellXfs from the style's own parts; read-back and dedup comparison fill every Style field from its own slot), plus the "
+                 "shared constant table of the two number-format lookups.",
+        "note": "Aliasing through imported num_fmts that redefine a built-in id is not decided. " + TRUST,
+        "technique": "field coverage + reaching-definition provenance of aggregate fields",
+    },
     "C31": {
         "level": "Static decision of spill bookkeeping guards: reset before relocation, no #SPILL! decision after a spill write, scan and "
                  "write loops over identical ranges, constructors of Cell::SpillCell, ownership test in spill clean-up loops.",
         "note": "Exactness of block contents and staleness across passes are not decided. Two single-site exceptions with reasons. " + TRUST,
         "technique": "CFG reachability/dominance + who-may-construct + loop-body field-read analysis",
+    },
+    "C32": {
+        "level": "Static decision of the defined-name plumbing: C10's typestate/English-storage rules for DefinedName.formula, rename "
+                 "walker coverage (children and name-carrying variants), all-worksheets rewrite, reparse after every change, English "
+                 "re-parse on xlsx import.",
+        "note": "Values of names and scope resolution are not decided. One known finding (LAMBDA call sites not renamed). " + TRUST,
+        "technique": "typestate dataflow + match-arm coverage + effect-based must-reach",
     },
     "C33": {
         "level": "Static decision that metadata is handled wherever cells are: displacement call-set agreement (TRIPLE), capture of "
